@@ -56,6 +56,12 @@ def budget(tier):
 
 
 def _gen(g):
+    if g.chance(10):
+        # stop() called from a task inside the portal, possibly several times with different cancel_remaining flags
+        nb = g.int(1, 3)
+        return {"kind": "stopseq", "config": g.choice(["S", "S", "U"]), "delays": [g.int(0, 3) for _ in range(g.int(0, 4))],
+                "blockers": [g.chance(30) for _ in range(nb)], "stops": [g.bool() for _ in range(g.int(1, 3))],
+                "gaps": [g.int(0, 3) for _ in range(3)], "threads": 1, "free": False, "exit": "normal", "steps": []}
     nt = g.int(1, 3)
     steps = []
     ids = 0
@@ -458,17 +464,113 @@ def run_once(case, out, stats):
     return body_exc
 
 
+def run_stopseq(case, out, stats):
+    """Blockers parked in the portal; a portal task calls stop() one or more times; see _gen."""
+    ended, started, exc_objs = {}, {}, {}
+    events = {}
+    verdict = {}
+    done_evt = threading.Event()
+    nb = len(case["blockers"])
+
+    async def blocker(i, raise_on_cancel):
+        ev = events[i] = anyio.Event()
+        started[i] = True
+        try:
+            await ev.wait()
+            ended[i] = "return"
+            return ("released", i)
+        except asyncio.CancelledError:
+            ended[i] = "cancelled"
+            if raise_on_cancel:
+                e = exc_objs[i] = Boom(i)
+                raise e from None
+            raise
+
+    async def stopper(portal):
+        try:
+            for k, cr in enumerate(case["stops"]):
+                with anyio.CancelScope(shield=True):
+                    await portal.stop(cancel_remaining=cr)
+                    for _ in range(case["gaps"][k % len(case["gaps"])]):
+                        await asyncio.sleep(0)
+            with anyio.CancelScope(shield=True):
+                for _ in range(20):
+                    await asyncio.sleep(0)
+            verdict["pending"] = [i for i in range(nb) if i not in ended]
+        finally:
+            done_evt.set()
+
+    if case["config"] == "U":
+        import uvloop
+        factory = uvloop.new_event_loop
+    else:
+        def factory():
+            loop = RLoop()
+            loop.delays = list(case["delays"])
+            return loop
+
+    futs = []
+    with start_blocking_portal(backend_options={"loop_factory": factory}) as portal:
+        loop = portal.call(asyncio.get_running_loop)
+        futs = [portal.start_task_soon(blocker, i, roc) for i, roc in enumerate(case["blockers"])]
+        t0 = time.monotonic()
+        while len(started) < nb:
+            if time.monotonic() - t0 > 10:
+                raise Hang()
+            time.sleep(0.0005)
+        portal.start_task_soon(stopper, portal)
+        if not done_evt.wait(15):
+            raise Hang()
+        try:
+            portal.call(lambda: None)
+            out.bad("call-accepted-after-stop", "stop-from-task", f"{case}")
+        except RuntimeError:
+            pass
+        if not any(case["stops"]) or verdict.get("pending"):
+            for ev in list(events.values()):
+                loop.call_soon_threadsafe(ev.set)      # harness plumbing: let the parked tasks finish
+    stats["stop_from_task"] += 1
+    if len(case["stops"]) >= 2:
+        stats["stop_called_twice"] += 1
+    pending = verdict.get("pending")
+    if pending is None:
+        out.bad("stopper-failed", "", f"{case}")
+        return
+    if any(case["stops"]):
+        if pending:
+            out.bad("cancel-remaining-ignored", "", f"{case}: tasks {pending} still parked 20 cycles after "
+                                                    f"stop(cancel_remaining=True) returned")
+        for i, f in enumerate(futs):
+            if ended.get(i) == "cancelled" and not case["blockers"][i] and not f.cancelled():
+                out.bad("wrong-result-routed", "future-of-cancelled-task", f"future {i}: {f._state}")
+    else:
+        if len(pending) != nb:
+            out.bad("task-cancelled-spuriously", "stop-from-task", f"{case}: ended {ended}")
+        for i, f in enumerate(futs):
+            try:
+                if f.result(timeout=5) != ("released", i):
+                    out.bad("wrong-result-routed", "future", f"future {i}")
+            except BaseException as e:  # noqa: BLE001
+                out.bad("wrong-result-routed", "future", f"future {i}: {e!r}")
+    for i, f in enumerate(futs):
+        if not f.done():
+            out.bad("future-not-done-at-exit", "stop-from-task", f"future {i}")
+
+
 def run_case(case) -> Outcome:
     out = Outcome()
     stats = dict.fromkeys(["calls_in_flight_at_stop", "future_cancelled_while_parked", "watchdog_rerun",
-                           "steps_after_exit"], 0)
+                           "steps_after_exit", "stop_from_task", "stop_called_twice"], 0)
     for attempt in range(3):
         trial = Outcome()
         box = {}
 
         def target():
             try:
-                run_once(case, trial, stats)
+                if case.get("kind") == "stopseq":
+                    run_stopseq(case, trial, stats)
+                else:
+                    run_once(case, trial, stats)
                 box["ok"] = True
             except Hang:
                 box["hang"] = True
